@@ -250,7 +250,7 @@ def gen_cases(rng, tier):
                         c['axis'] = rng.choice([0, 1, 2, 3, 4, 5, -1, -2])
                     add(fin(c))
         for sa, sb in pairs(rng, thorough):
-            add(fin({'op': 'pole', 'a': angle(rng, sa), 'b': angle(rng, sb), 'noreq': True}))
+            add(fin({'op': 'pole', 'a': angle(rng, sa), 'b': angle(rng, sb), 'mode': 'q'}))
 
         # ---------------------------------------------------------------- Euler angles, all 24 conventions
         trip = [([], [], []), ([3], [3], [3]), ([2], [], [2, 1]), ([], [2], []), ([1], [3], [1]), ([0], [], [0]), ([2, 2], [2], [])]
@@ -301,10 +301,15 @@ def gen_cases(rng, tier):
         # ---------------------------------------------------------------- twovec / spin / from_rotation
         for sa, sb in pairs(rng, thorough):
             a = opd(rng, 'Vector3', sa, [3], (), 'float'); b = opd(rng, 'Vector3', sb, [3], (), 'float')
+            kind = rng.choice(['zero', 'axis', 'par', None])
+            if kind:
+                structure_vectors(rng, b, kind, a)        # parallel / antiparallel / zero / axis-aligned second vector
+            if rng.random() < 0.3:
+                structure_vectors(rng, a, rng.choice(['zero', 'axis']))
             for a1 in range(3):
                 for a2 in range(3):
                     if a1 != a2 and rng.random() < 0.35:
-                        add(fin({'op': 'twovec', 'a': a, 'axis1': a1, 'b': b, 'axis2': a2, 'noreq': True}))
+                        add(fin({'op': 'twovec', 'a': a, 'axis1': a1, 'b': b, 'axis2': a2, 'mode': 'q', 'edge': bool(kind)}))
             pole = opd(rng, 'Vector3', sb, [3], (), 'int')
             for e in range(size(sb)):                       # no zero poles (unspecified)
                 if not any(pole['vals'][3 * e:3 * e + 3]):
@@ -312,7 +317,9 @@ def gen_cases(rng, tier):
             ang = angle(rng, rng.choice([[], sa]))
             if np_bcast(np_bcast(sa, sb) or [], ang['shape']) is not None:
                 add(fin({'op': 'spin', 'a': a, 'b': pole, 'c': ang, 'noreq': True}))
-            add(fin({'op': 'qrot', 'a': angle(rng, sa), 'b': pole, 'noreq': True}))
+            add(fin({'op': 'qrot', 'a': angle(rng, sa), 'b': pole, 'mode': 'q'}))
+            zp = structure_vectors(rng, opd(rng, 'Vector3', sb, [3], (), 'int'), 'zero')
+            add(fin({'op': 'qrot', 'a': angle(rng, sa), 'b': zp, 'mode': 'q', 'edge': True}))
     return cases
 
 
